@@ -141,6 +141,15 @@ func registerIntrinsics(ex *Executor) {
 	I["@verifHeldLocks"] = func(ex *Executor, st *State, cc *CallCtx, args []Val) (Val, ctl) {
 		return smt.IntC(int64(len(st.th().Locks))), cNext
 	}
+	I["@verifHeldExclusive"] = func(ex *Executor, st *State, cc *CallCtx, args []Val) (Val, ctl) {
+		n := 0
+		for _, m := range st.th().Locks {
+			if m == 'W' {
+				n++
+			}
+		}
+		return smt.IntC(int64(n)), cNext
+	}
 	I["@verifNoLocksHeld"] = func(ex *Executor, st *State, cc *CallCtx, args []Val) (Val, ctl) {
 		return smt.BoolC(len(st.th().Locks) == 0), cNext
 	}
